@@ -10,6 +10,13 @@ d = sys.argv[1]
 RUNNER = os.environ.get('MAMBACHECK_BIN', './run.sh')
 REPO = os.environ.get('EVAL_REPO', '/repo')
 env['MAMBA_REPO'] = REPO
+ALL = os.environ.get('MAMBACHECK_ALL', '')  # path of a checker binary: use its ALL mode
+if ALL:
+    env['VERIF_DIR'] = os.environ.get('SCRATCH_VERIF', '/tmp/ev-scratch')
+    os.makedirs(env['VERIF_DIR'] + '/evidence/violations', exist_ok=True)
+    env['MAMBACHECK_CTL'] = '/verif/checker/testdata/ctl'
+    import shutil as _sh
+    _sh.copy('/verif/known_findings.txt', env['VERIF_DIR'] + '/known_findings.txt')
 props = [c['property_id'] for c in json.load(open('/verif/MANIFEST.json'))['checks']]
 rc, st = sh('git status --short', REPO); assert st.strip() == '', REPO + ' dirty'
 for diff in sorted(glob.glob(d + '/*.diff')):
@@ -23,7 +30,23 @@ for diff in sorted(glob.glob(d + '/*.diff')):
     try:
         rcb, outb = sh('go build ./...', REPO)
         bad = []
-        for p in props:
+        if ALL:
+            # one process for all properties (development aid; evidence goes to a scratch directory)
+            rc, out = sh(f'{ALL} ALL quick', '/verif')
+            chunk = []
+            for l in out.splitlines():
+                if l.startswith('EXIT '):
+                    _, p, code = l.split()
+                    if code != '0':
+                        lines = [x for x in chunk if x.startswith(('VIOLATION','BROKEN','ANALYSIS')) or '[' in x and ']' in x and ':' in x and not x.startswith(p+' ')]
+                        bad.append((p, int(code), lines[:6]))
+                    chunk = []
+                else:
+                    chunk.append(l)
+            if 'EXIT ' not in out:
+                bad.append(('ALL', rc, out.splitlines()[-6:]))
+        else:
+          for p in props:
             rc, out = sh(f'{RUNNER} {p} quick', '/verif')
             if rc != 0:
                 lines = [l for l in out.splitlines() if l.startswith(('VIOLATION','BROKEN','ANALYSIS')) or '[' in l and ']' in l and ':' in l and not l.startswith(p+' ')]
